@@ -67,6 +67,7 @@ pub struct Pipe {
     /// The write that would take total_written past this offset fails, and every later one.
     fail_writes_after: Option<(u64, io::ErrorKind)>,
     pub write_failed: bool,
+    pub write_failed_at_ms: Option<u64>,
 }
 
 #[derive(Clone)]
@@ -105,6 +106,9 @@ impl PipeCtl {
     }
     pub fn write_failed(&self) -> bool {
         self.0.lock().unwrap().write_failed
+    }
+    pub fn write_failed_at_ms(&self) -> Option<u64> {
+        self.0.lock().unwrap().write_failed_at_ms
     }
     pub fn reader_gone(&self) -> bool {
         self.0.lock().unwrap().rd_gone
@@ -155,6 +159,7 @@ pub fn pipe(
         total_read: 0,
         fail_writes_after: None,
         write_failed: false,
+        write_failed_at_ms: None,
     }));
     (
         WriteEnd { pipe: p.clone(), world: world.clone(), cfg: wcfg, sleep: None, stalled: false, tag },
@@ -340,6 +345,7 @@ impl AsyncWrite for WriteEnd {
             if let Some((off, kind)) = p.fail_writes_after {
                 if p.total_written >= off {
                     p.write_failed = true;
+                    p.write_failed_at_ms = Some(World::now_ms());
                     this.world.stat("fault.write_error");
                     this.world.ev(format!("{}: write error injected at offset {}", this.tag, p.total_written));
                     return Poll::Ready(Err(io::Error::new(kind, "sim: injected write error")));
